@@ -29,6 +29,10 @@ pub struct Node {
     pub raw_release: Cell<bool>,
     /// the next `Clone::clone` of this value panics before it does anything (one shot)
     pub clone_bomb: Cell<bool>,
+    /// the next `Clone::clone` of this value first drops every other handle the program holds to
+    /// the object (a cache eviction inside `Clone`): the handle passed to make_mut may then be the
+    /// last one when the copy returns
+    pub clone_evict: Cell<bool>,
 }
 
 /// Payload of the panic raised by an armed `clone_bomb`.
@@ -45,6 +49,7 @@ impl Node {
             shallow: Cell::new(false),
             raw_release: Cell::new(false),
             clone_bomb: Cell::new(false),
+            clone_evict: Cell::new(false),
         }
     }
 }
@@ -211,6 +216,18 @@ impl Clone for Node {
         }
         let prev = alloc::enter_user();
         let src = self.id;
+        if self.clone_evict.replace(false) {
+            // the handle make_mut works on has left its slot already: every remaining program slot
+            // that refers to this object is one of the *other* handles
+            let slots: Vec<usize> = world::with(|w| (0..w.handles.len()).filter(|&s| w.handles[s].is_some() && w.htarget[s] == src).collect());
+            world::with(|w| {
+                w.stats.clone_evictions += 1;
+                w.ev(world::Ev::Note(format!("Clone of #{} drops the program's other handles {:?}", src, slots)));
+            });
+            for s in slots {
+                let _ = crate::exec::exec(&Op::Drop(s));
+            }
+        }
         let new_id = world::with(|w| w.next_id());
         let n = Node::new(new_id);
         let shallow = self.shallow.get();
